@@ -52,3 +52,13 @@ Theorem C08_decide_classified : forall U act_ge pa db,
   classify soft db pa (VSol (pd_cand d), true) (pd_clause d) = Some EProp \/
   classify soft db pa (VSol (pd_cand d), true) (pd_clause d) = Some (if is_vroot (pd_parent d) then ERootDec else EDec).
 Proof. exact decide_classified. Qed.
+
+(* in every state of the solver model (Cdcl/Solver.v, SInv by C05_solver_model_invariant) the
+   Requires clauses are well-formed, so what decide proposes there is a legal decision *)
+From Resolvo Require Import Cdcl.SolverProofs.
+Theorem C08_solver_model_decide_legal : forall U P A a_ge (st : sstate A) d,
+  SInv U P A st -> root_first (s_db st) = true -> lit_istrue (tr_lits st) (VRoot, true) = true ->
+  decide U (a_ge (s_act st)) (s_db st) (tr_lits st) = Some (Some d) ->
+  exists c, nth_error (s_db st) (N.to_nat (pd_clause d)) = Some c /\
+            decision_kind (s_db st) (tr_lits st) c (VSol (pd_cand d), true) = Some (if is_vroot (pd_parent d) then ERootDec else EDec).
+Proof. exact sinv_decide_legal. Qed.
